@@ -233,6 +233,13 @@ def _operand(ctx, name):
         return em.TimingExp(up.model.StartTiming())
     if name == "time:global+1":
         return em.TimingExp(up.model.GlobalStartTiming(1))
+    if name.startswith("deep:"):
+        # a hierarchy of depth 3: E > P, E > V > K (nearest common ancestor of P and K is the
+        # father of one but the grandfather of the other)
+        for tn, fa in (("E", None), ("P", "E"), ("V", "E"), ("K", "V")):
+            ctx.utype(tn, fa)
+        tn = name[5]
+        return em.ObjectExp(ctx.obj("deep_" + tn.lower(), tn))
     return ctx.e(dict(EQ_OPERANDS)[name])
 
 
@@ -250,9 +257,13 @@ EQ_OPERANDS = [
     ("B-variable:vb", ("v", "vb", "B")),
     ("time:start", None),
     ("time:global+1", None),
+    ("deep:E-object", None),
+    ("deep:P-object", None),
+    ("deep:V-object", None),
+    ("deep:K-object", None),
 ]
 _CLASS = {"bool": "bool", "int": "num", "real": "num", "A-object": "user", "B-object": "user", "C-object": "user",
-          "A-fluent": "user", "B-variable": "user", "time": "time"}
+          "A-fluent": "user", "B-variable": "user", "time": "time", "deep": "user"}
 
 
 def try_equals(a, b):
